@@ -64,6 +64,36 @@ def concrete_model(ctx, bad, timeout_ms=20000):
         if t.decl().eq(symex.IMOD) and z3.is_const(t.arg(1)) and \
                 not z3.is_int_value(t.arg(1)):
             steps.append(t.arg(1))
+    # first: substitute grid values for the real-valued variables (ratios),
+    # which makes the products linear - decided in milliseconds where the
+    # nonlinear solver can take its whole timeout
+    import itertools
+    used_reals = []
+    seen_r = set()
+    for f in exact:
+        _collect(f, lambda t: z3.is_const(t) and t.sort() == z3.RealSort()
+                 and t.decl().kind() == z3.Z3_OP_UNINTERPRETED,
+                 used_reals, seen_r)
+    if used_reals and len(used_reals) <= 3:
+        combos = itertools.islice(itertools.product(
+            RATIO_GRID[:6], repeat=len(used_reals)), 60)
+        for combo in combos:
+            sub = [(v, z3.RealVal(str(g))) for v, g in zip(used_reals, combo)]
+            s = z3.Solver()
+            s.set('timeout', 2000)
+            s.set('rlimit', 4000000)
+            for f in exact:
+                s.add(z3.substitute(f, *sub))
+            t0 = time.time()
+            r = str(s.check())
+            ctx.nq += 1
+            ctx.tq += time.time() - t0
+            if r == 'sat':
+                m = s.model()
+                vals = ctx.model_values(m)
+                for v, g in zip(used_reals, combo):
+                    vals[str(v)] = g
+                return 'sat', vals
     attempts = []
     grid = [z3.Or(*[v == z3.RealVal(str(g)) for g in RATIO_GRID])
             for v in reals]
@@ -75,6 +105,9 @@ def concrete_model(ctx, bad, timeout_ms=20000):
     for i, extra in enumerate(attempts):
         s = z3.Solver()
         s.set('timeout', timeout_ms)
+        # the nonlinear engine does not always honour the timeout; the
+        # resource limit is checked everywhere
+        s.set('rlimit', 20000000)
         for f in exact:
             s.add(f)
         for e in extra:
@@ -117,7 +150,19 @@ def obligation(ctx, clause, bad, desc='', sig=''):
             choices=list(ctx.choices), kind='replayed'))
         return False
     if r == 'sat':
+        key = (clause, sig)
+        if _FOUND.get(key, 0) >= 3:
+            # this worker already produced replayable models for the same
+            # clause and fingerprint; one representative is replayed, so do
+            # not pay for the exact re-solve again (the violation is still
+            # recorded; without values it is never the representative)
+            d.setdefault('violations', []).append(dict(
+                clause=clause, desc=desc, sig=sig, values=None,
+                choices=list(ctx.choices), kind='model'))
+            return False
         rr, values = concrete_model(ctx, bad)
+        if rr == 'sat':
+            _FOUND[key] = _FOUND.get(key, 0) + 1
         d['refinements'] = d.get('refinements', 0) + 1
         if rr == 'unsat':
             d['discharged'] = d.get('discharged', 0) + 1
@@ -134,6 +179,7 @@ def obligation(ctx, clause, bad, desc='', sig=''):
     return False
 
 
+_FOUND = {}
 XCHECK_DIR = os.environ.get('VERIF_XCHECK_DIR')
 XCHECK_EVERY = int(os.environ.get('VERIF_XCHECK_EVERY', '97'))
 _xcount = [0]
@@ -421,6 +467,7 @@ def run_check(prop, families, level='model_checking', technique='',
         totals['discharged'] += di
         totals['refinements'] += rf
         totals['unknown_forks'] += stats['unknown_forks']
+        totals['concretisations'] += stats.get('concretisations', 0)
         solver_s += stats['solver_s']
         by_outcome.update({'%s' % k: v for k, v in oc.items()})
         fam_ev.append(dict(family=fam.name, paths=stats['paths'],
@@ -586,6 +633,7 @@ def run_check(prop, families, level='model_checking', technique='',
         solver_queries=totals['queries'],
         solver_s=round(solver_s, 2),
         unknown_forks=totals['unknown_forks'],
+        concretisations=totals['concretisations'],
         refinements=totals['refinements'],
         paths_by_outcome=dict(by_outcome),
         families=fam_ev,
